@@ -23,6 +23,8 @@ structure DState where
   sys : Option Sys := none
   gfirst : Nat := 0
   nvals : Nat := 0
+  /-- the storage makes every hand-off durable at once (`mt` cases) -/
+  auto : Bool := false
 
 /-! ### parsing -/
 
@@ -85,7 +87,8 @@ def applyEv (s : Sys) (e : Event) : Sys × Bool :=
   | none => (s, false)
 
 /-- one round: returns the new state and whether anything happened -/
-def quiesceRound (s : Sys) : Sys × Bool :=
+def quiesceRound (auto : Bool) (s : Sys) : Sys × Bool :=
+  if auto && !s.env.inbox.isEmpty then applyEv s (.env .complete) else
   match firstEnabled s.store.queued.next s.parked 0 with
   | some i => applyEv s (.push i)
   | none =>
@@ -103,11 +106,13 @@ def quiesceRound (s : Sys) : Sys × Bool :=
           let (s3, ret) := applyEv s .taskReturn
           if ret then (s3, true) else (s, false)
 
-def quiesce : Nat → Sys → Sys
+def quiesceA (auto : Bool) : Nat → Sys → Sys
   | 0, s => s
   | fuel + 1, s =>
-    let (s', progressed) := quiesceRound s
-    if progressed then quiesce fuel s' else s
+    let (s', progressed) := quiesceRound auto s
+    if progressed then quiesceA auto fuel s' else s
+
+def quiesce : Nat → Sys → Sys := quiesceA false
 
 /-! ### observations -/
 
@@ -155,9 +160,24 @@ def getJ (s : Sys) (n : Nat) : Json :=
 
 def FUEL : Nat := 100000
 
+/-- `cls`: observation class of the operation; for a `submit` (`rid = some id`) it is refined by what happened to
+the call during this operation (returned `Ok`, returned an error, still parked). -/
+def finishOpC (cls : String) (rid : Option Nat) (d : DState) (old : Option Sys) (s : Sys)
+    (extra : List (String × Json)) : DState × Json :=
+  let s' := quiesceA d.auto FUEL s
+  let oldFin := match old with | some o => o.finished.length | none => 0
+  let cls1 := match rid with
+    | none => cls
+    | some id =>
+      match (s'.finished.drop oldFin).find? (fun x => x.1 == id) with
+      | some (_, true) => cls ++ "-done"
+      | some (_, false) => cls ++ "-rejected"
+      | none => cls ++ "-parked"
+  let cls2 := if s'.dead then cls1 ++ "+dead" else cls1
+  ({ d with sys := some s' }, Json.mkObj (snapshot old s' ++ extra ++ [("class", Json.str cls2)]))
+
 def finishOp (d : DState) (old : Option Sys) (s : Sys) (extra : List (String × Json)) : DState × Json :=
-  let s' := quiesce FUEL s
-  ({ d with sys := some s' }, Json.mkObj (snapshot old s' ++ extra))
+  finishOpC "op" none d old s extra
 
 /-- chain-0 blocks for the numbers `lo, …, hi-1` -/
 def canonRange (d : DState) (lo hi : Nat) : List Block := (List.range (hi - lo)).map fun i => canonical d (lo + i) 0
@@ -180,8 +200,57 @@ def handle (d : DState) (j : Json) : DState × Json :=
       let disk := match l with | some l => canonRange d0 f (l + 1) | none => []
       let cfg : Config := { firstBlock := g, schedules := [(0, ws)] }
       let s := Sys.init cfg { persisted := p, disk := disk, credits := k }
-      finishOp d0 none s []
+      finishOpC "init" none d0 none s []
     | _, _, _, _, _ => (d, badOp)
+  | some "mt" =>
+    -- concurrent submitters on a multi-threaded runtime, storage persisting every hand-off at once, one side-channel
+    -- jump "to at least `jump`": only the final (order-independent) state is compared
+    match getNat j "gfirst", getNatList j "weights", getNat j "first", getOptNat j "last", getArr j "subs",
+          getOptNat j "jump" with
+    | some g, some ws, some f, some l, some subs, some jump =>
+      let d0 : DState := { sys := none, gfirst := g, nvals := ws.length, auto := true }
+      let p : Range := { first := f, last := l }
+      let disk := match l with | some l => canonRange d0 f (l + 1) | none => []
+      let cfg : Config := { firstBlock := g, schedules := [(0, ws)] }
+      let s0 := quiesceA true FUEL (Sys.init cfg { persisted := p, disk := disk, credits := 1000000 })
+      let s1 := subs.toList.foldl (fun (acc : Sys) a =>
+        match getNat a "id", getNat a "n", getStr a "src", getObj a "b" with
+        | some id, some n, some src, some bj =>
+          match parseBlock d0 n bj with
+          | some b =>
+            let r : Req := { id := id, block := b, waitPersist := src == "consensus" }
+            let ev : Event := if src == "peer" then
+                .peer (match getInt a "dwant" with | some dw => ((n : Int) + dw).toNat | none => n) r
+              else .submit r
+            quiesceA true FUEL (applyEv acc ev).1
+          | none => acc
+        | _, _, _, _ => acc) s0
+      let s2 := match jump with
+        | none => s1
+        | some L =>
+          let cur := s1.env.persisted
+          if cur.next ≤ L then
+            (applyEv s1 (.env (.publish { first := cur.first, last := some L } (canonRange d0 cur.next (L + 1))))).1
+          else s1
+      finishOpC "mt" none d0 none s2 []
+    | _, _, _, _, _, _ => (d, badOp)
+  | some "net" =>
+    -- a fresh node (durable state `{first, None}`) fetching from one peer over the real gossip network: the peer's
+    -- answers arrive as `peer want block` events in the given order
+    match getNat j "gfirst", getNatList j "weights", getNat j "first", getArr j "answers" with
+    | some g, some ws, some f, some answers =>
+      let d0 : DState := { sys := none, gfirst := g, nvals := ws.length }
+      let cfg : Config := { firstBlock := g, schedules := [(0, ws)] }
+      let s0 := quiesce FUEL (Sys.init cfg { persisted := { first := f, last := none }, disk := [], credits := 1000 })
+      let s1 := answers.toList.foldl (fun (acc : Sys × Nat) a =>
+        match getNat a "want", getNat a "n", getObj a "b" with
+        | some want, some n, some bj =>
+          match parseBlock d0 n bj with
+          | some b => (quiesce FUEL (applyEv acc.1 (.peer want { id := acc.2, block := b, waitPersist := false })).1, acc.2 + 1)
+          | none => acc
+        | _, _, _ => acc) (s0, 0)
+      finishOpC "net" none d0 none s1.1 []
+    | _, _, _, _ => (d, badOp)
   | some op =>
     match d.sys with
     | none => (d, badOp)
@@ -209,8 +278,8 @@ def handle (d : DState) (j : Json) : DState × Json :=
                 .peer want r
               else .submit r
             let (s1, _) := applyEv s ev
-            finishOp d (some s) s1 [("n", natJ n)]
-        | none, _, _, _ => finishOp d (some s) s [("skip", Json.bool true)]
+            finishOpC "submit" (some id) d (some s) s1 [("n", natJ n)]
+        | none, _, _, _ => finishOpC "submit-skip" none d (some s) s [("skip", Json.bool true)]
         | _, _, _, _ => (d, badOp)
       | "cancel" =>
         match getNat j "id" with
@@ -218,25 +287,25 @@ def handle (d : DState) (j : Json) : DState × Json :=
           let s1 := match s.parked.findIdx? (fun r => r.id == id) with
             | some i => (applyEv s (.cancel i)).1
             | none => s
-          finishOp d (some s) s1 []
+          finishOpC "cancel" none d (some s) s1 []
         | none => (d, badOp)
       | "credit" =>
         match getNat j "k" with
-        | some k => finishOp d (some s) (applyEv s (.env (.credit k))).1 []
+        | some k => finishOpC "credit" none d (some s) (applyEv s (.env (.credit k))).1 []
         | none => (d, badOp)
-      | "fail_next" => finishOp d (some s) (applyEv s (.env .failNext)).1 []
+      | "fail_next" => finishOpC "fail_next" none d (some s) (applyEv s (.env .failNext)).1 []
       | "complete" =>
         match getNat j "k" with
-        | some k => finishOp d (some s) (completeN k s) []
+        | some k => finishOpC "complete" none d (some s) (completeN k s) []
         | none => (d, badOp)
       | "jump" =>
         -- side channel: the storage obtains the chain-0 blocks `next … next+by-1`
         match getNat j "by" with
         | some by_ =>
-          if by_ = 0 then finishOp d (some s) s [] else
+          if by_ = 0 then finishOpC "jump" none d (some s) s [] else
           let cur := s.env.persisted
           let p : Range := { first := cur.first, last := some (cur.next + by_ - 1) }
-          finishOp d (some s) (applyEv s (.env (.publish p (canonRange d cur.next (cur.next + by_))))).1 []
+          finishOpC "jump" none d (some s) (applyEv s (.env (.publish p (canonRange d cur.next (cur.next + by_))))).1 []
         | none => (d, badOp)
       | "prune" =>
         -- `in_memory::Engine::truncate(first + by)`
@@ -244,9 +313,9 @@ def handle (d : DState) (j : Json) : DState × Json :=
         | some by_ =>
           let cur := s.env.persisted
           let f := cur.first + by_
-          if cur.first ≥ f then finishOp d (some s) s [] else
+          if cur.first ≥ f then finishOpC "prune" none d (some s) s [] else
           let p : Range := { first := f, last := if cur.next ≤ f then none else cur.last }
-          finishOp d (some s) (applyEv s (.env (.publish p []))).1 []
+          finishOpC "prune" none d (some s) (applyEv s (.env (.publish p []))).1 []
         | none => (d, badOp)
       | "report" =>
         -- arbitrary report; `honest`: the chain-0 blocks of the reported range become readable
@@ -254,11 +323,11 @@ def handle (d : DState) (j : Json) : DState × Json :=
         | some f, some l, some honest =>
           let p : Range := { first := f, last := l }
           let add := if honest then (match l with | some l => canonRange d f (l + 1) | none => []) else []
-          finishOp d (some s) (applyEv s (.env (.publish p add))).1 []
+          finishOpC "report" none d (some s) (applyEv s (.env (.publish p add))).1 []
         | _, _, _ => (d, badOp)
       | "restart" =>
         let (s1, ok) := applyEv s .restart
-        finishOp d (some s) s1 [("restarted", Json.bool ok)]
+        finishOpC "restart" none d (some s) s1 [("restarted", Json.bool ok)]
       | "get" =>
         let num? : Option Nat :=
           match getNat j "n" with
@@ -268,15 +337,18 @@ def handle (d : DState) (j : Json) : DState × Json :=
             | some r => let v := (s.store.queued.next : Int) + r; if v < 0 then none else some v.toNat
             | none => none
         match num? with
-        | some n => finishOp d (some s) s [("g", getJ s n), ("gs", getSrcJ s n)]
-        | none => finishOp d (some s) s [("skip", Json.bool true)]
+        | some n =>
+          let src := match s.get n with
+            | .absent => "absent" | .cached _ => "cached" | .stored _ => "stored" | .error => "err"
+          finishOpC ("get-" ++ src) none d (some s) s [("g", getJ s n), ("gs", getSrcJ s n)]
+        | none => finishOpC "get-skip" none d (some s) s [("skip", Json.bool true)]
       | "scan" =>
         let lo := s.store.queued.first - 1
         let hi := s.store.queued.next + 2
         let rows := (List.range (hi - lo)).map fun i => getJ s (lo + i)
         let rowsS := (List.range (hi - lo)).map fun i => getSrcJ s (lo + i)
-        finishOp d (some s) s [("scan", Json.arr rows.toArray), ("scans", Json.arr rowsS.toArray)]
-      | "tick" => finishOp d (some s) s []
+        finishOpC "scan" none d (some s) s [("scan", Json.arr rows.toArray), ("scans", Json.arr rowsS.toArray)]
+      | "tick" => finishOpC "tick" none d (some s) s []
       | _ => (d, badOp)
 
 end Driver.C08
